@@ -198,13 +198,20 @@ pub(crate) fn pb_setup_pub(b0r: Round, b1r: Round, lc: Round, cur_round: Round) 
 /// cur_round + 1: the self-addressed vote path (vote -> own aggregator -> certificate path) is covered by hv_single /
 /// hv_quorum and would multiply the cost here.
 fn pb_setup(b0r: Round, b1r: Round, lc: Round, with_tc: bool, cur_round: Round) -> PB {
+    pb_setup2(b0r, b1r, lc, with_tc, cur_round, None)
+}
+/// `b1_tc`: the stored, certified block b1 itself carries a TC of that round (it was proposed after a view change).
+fn pb_setup2(b0r: Round, b1r: Round, lc: Round, with_tc: bool, cur_round: Round, b1_tc: Option<Round>) -> PB {
     store::reset();
     let me = ((cur_round + 2) % 4) as u8;
     let mut env = mk_core(me, &EQ4);
     let b0 = blk(1, b0r, Digest::default(), 0);
     let d0 = b0.digest();
     env.store.preload(d0.to_vec(), bincode::serialize(&b0).unwrap());
-    let b1 = blk(2, b1r, d0.clone(), b0r);
+    let mut b1 = blk(2, b1r, d0.clone(), b0r);
+    if let Some(tcr) = b1_tc {
+        b1.tc = Some(TC { round: tcr, votes: vec![(key(0), Signature::default(), 0), (key(1), Signature::default(), 0), (key(3), Signature::default(), 0)] });
+    }
     let d1 = b1.digest();
     env.store.preload(d1.to_vec(), bincode::serialize(&b1).unwrap());
     vwit::assume(d0 != d1 && d0 != Digest::default() && d1 != Digest::default());
@@ -249,7 +256,10 @@ fn pb_vote_out(pb: &PB) -> Option<Round> {
     }
 }
 fn process_block_check(b0r: Round, b1r: Round, lc: Round, with_tc: bool, cur_round: Round) {
-    let mut pb = pb_setup(b0r, b1r, lc, with_tc, cur_round);
+    process_block_check2(b0r, b1r, lc, with_tc, cur_round, None)
+}
+fn process_block_check2(b0r: Round, b1r: Round, lc: Round, with_tc: bool, cur_round: Round, b1_tc: Option<Round>) {
+    let mut pb = pb_setup2(b0r, b1r, lc, with_tc, cur_round, b1_tc);
     let res = run_ready(pb.env.core.process_block(&pb.blk));
     assert!(res.is_ok());
     let r = pb.blk.round;
@@ -315,6 +325,14 @@ pb_h!(pb_gap_notc, 5, 7, 4, false, 8);
 pb_h!(pb_gap_tc, 5, 7, 4, true, 10);
 pb_h!(pb_consec_delivered_notc, 5, 6, 5, false, 7);
 pb_h!(pb_first_notc, 1, 2, 0, false, 3);
+/// b0(5) <- b1(7, proposed after a view change: carries the TC of round 6) <- block: a TC on b1 does not make (b0, b1) a
+/// consecutive-round 2-chain, nothing is committed.
+#[kani::proof]
+#[kani::unwind(12)]
+#[kani::stub(std::fmt::format, stub_format)]
+fn pb_gap_b1tc_notc() {
+    process_block_check2(5, 7, 4, false, 8, Some(6))
+}
 
 // ===================================================================================== debugging aids (not part of any check)
 #[kani::proof]
